@@ -54,6 +54,14 @@ def cfg_with(**kw):
     return c
 
 
+_PCT = st.sampled_from(range(100))
+
+
+def chance(draw, p):
+    """True with probability ~p (Hypothesis' bounded floats are heavily biased to 0/1; integers are not)."""
+    return draw(_PCT) < int(round(p * 100))
+
+
 def cache_ancestors(cache_rel):
     parts = cache_rel.split('/')[:-1]
     return ['/'.join(parts[:i + 1]) for i in range(len(parts))]
@@ -94,7 +102,7 @@ def program(draw, cfg=DEFAULT_CFG, cache_rel='cache.gz'):
     funcs = {}
 
     def call(j, top=False):
-        catch = draw(st.floats(0, 1)) < (cfg['root_catch_p'] if top else cfg['catch_p'])
+        catch = chance(draw, cfg['root_catch_p'] if top else cfg['catch_p'])
         a = draw(small_args)
         if kinds[j] == 'file':
             tgt = draw(opath)
@@ -120,11 +128,11 @@ def program(draw, cfg=DEFAULT_CFG, cache_rel='cache.gz'):
             elif c == 9 and is_file and not wrote and depth == 0:
                 stmts.append(['write'])
                 wrote = True
-        if is_file and depth == 0 and not wrote and draw(st.floats(0, 1)) >= cfg['nowrite_p']:
+        if is_file and depth == 0 and not wrote and not chance(draw, cfg['nowrite_p']):
             stmts.insert(draw(st.integers(0, len(stmts))), ['write'])
-        if depth == 0 and draw(st.floats(0, 1)) < cfg['nonjson_p']:
+        if depth == 0 and chance(draw, cfg['nonjson_p']):
             stmts.append(['ret_nonjson'])
-        if depth == 0 and cfg['inner_probe'] and draw(st.floats(0, 1)) < cfg['inner_probe']:
+        if depth == 0 and cfg['inner_probe'] and chance(draw, cfg['inner_probe']):
             stmts.insert(draw(st.integers(0, len(stmts))), ['probe'])
         return stmts
 
